@@ -32,7 +32,9 @@ META = {
                "value bytes symbolic (all widths incl. 24/60-byte strings), last accessible location 0..254 "
                "symbolic, one hole at a symbolic position, one fault at a symbolic read",
                "read_all: last accessible location = every boundary around the bank's values (thorough: "
-               "0..declared last+2), one value's bytes symbolic per case, latch on/off"],
+               "0..declared last+2), one value's bytes symbolic per case, latch on/off",
+               "MASK / TMASK reported by read() exactly where the DiiA flag table (spec/memory_map.FLAGS) "
+               "says the value supports them"],
     "stubs": ["isinstance/int/bytes/pow shims"],
     "outside": ["units that violate 9.10 other than by silence/garbling", "several disturbances at once",
                 "read_all with all values symbolic at once (product of per-value outcomes)"],
